@@ -225,6 +225,39 @@ func (t *Type) GetDict() StringDict {
 	return t.Dict
 }
 
+// isBuiltinType reports whether t is a type defined in Go, as opposed
+// to a class created by a class statement (TPFLAGS_HEAPTYPE) or an
+// instance of such a class (instances are *Type values made by Alloc,
+// which have no name).
+func (t *Type) isBuiltinType() bool {
+	return t.Name != "" && t.Flags&TPFLAGS_HEAPTYPE == 0
+}
+
+// M__setattr__ sets an attribute of a type (or of an instance of a class).
+//
+// The dictionaries of the types defined in Go are shared by every
+// py.Context of the process, so - like CPython - attributes can only
+// be assigned on types created by a class statement.
+func (t *Type) M__setattr__(name string, value Object) (Object, error) {
+	if t.isBuiltinType() {
+		return nil, ExceptionNewf(TypeError, "can't set attributes of built-in/extension type '%s'", t.Name)
+	}
+	t.Dict[name] = value
+	return None, nil
+}
+
+// M__delattr__ deletes an attribute of a type created by a class statement.
+func (t *Type) M__delattr__(name string) (Object, error) {
+	if t.isBuiltinType() {
+		return nil, ExceptionNewf(TypeError, "can't set attributes of built-in/extension type '%s'", t.Name)
+	}
+	if _, ok := t.Dict[name]; !ok {
+		return nil, ExceptionNewf(AttributeError, "type object '%s' has no attribute '%s'", t.Name, name)
+	}
+	delete(t.Dict, name)
+	return None, nil
+}
+
 // delayedReady holds types waiting to be intialised
 var delayedReady = []*Type{}
 
